@@ -391,12 +391,12 @@ def c05(ctx):
 SPECS = {
     "C05": {"fn": c05, "level": "exploration",
             "technique": "runtime monitoring at process boundaries under the race detector: offline checker over a monotonic event log written by scriptable helper peers (exactly-once dispatch, matching and alive server, overlap bound, cleanup) plus the runner's output, against the selection computed by independent models",
-            "text": "The race-built runner is executed with helper peers that log, at their own boundary, every ServerCompatRequest, ClientCompatRequest and arriving RPC; the checker requires the multiset of issued permutations to equal the independently computed selection (minus those whose server was scripted not to start, which must be reported), each request to address a live server whose logged configuration equals the permutation's axes (probed by TCP/TLS/QUIC handshake or observed by the very instance that received the RPC), the test-name header, at most --max-servers overlapping server lifetimes, a stop for every started server and termination.",
+            "text": "The race-built runner is executed with helper peers that log, at their own boundary, every ServerCompatRequest, ClientCompatRequest and arriving RPC; the checker requires the multiset of issued permutations to equal the independently computed selection (minus those whose server was scripted not to start, which must be reported), each request to address a live server whose logged configuration equals the permutation's axes (probed by TCP/TLS/QUIC handshake or observed by the very instance that received the RPC), the test-name header, at most --max-servers overlapping server lifetimes, a stop for every started server and termination. Dedicated scenarios let one server instance end on its own (exit status 0 and non-zero) in the middle of a large TLS batch whose hand-over is paced by a slow-reading helper client: the bytes handed to the client after the logged exit must not exceed what the stdin pipe (capacity logged by the client) could already hold, and every permutation is either handed over once or reported. The check is inconclusive unless client-certificate permutations were actually dispatched and checked.",
             "note": "Interleavings of the batch goroutines are sampled by varying --max-servers, GOMAXPROCS and peer latencies; alive intervals are logged subsets of real lifetimes (the bound check cannot raise a false alarm).",
             "assumptions": ["CLOCK_MONOTONIC is shared by all processes of a run", "model_*_test.go compute the selected set"]},
     "C04": {"fn": c04, "level": "exploration",
             "technique": "runtime monitoring: truth-table oracle over (a) the real testResults driven through its entry points from concurrent goroutines and (b) the real runner binary with scripted helper peers realising each outcome kind; observed: report() value / process exit status, FAILED and INFO lines, summary totals",
-            "text": "Every assignment of outcome kind x marking x feedback to 1-2 cases (3 cases stratified/complete) and random assignments to 4-12 cases are applied to the real results object and the printed report is compared with the truth table (verdict, naming of every failing case, accounting of every case exactly once). The same rows are realised end to end with the real binary and a scripted client/server (verifpeer).",
+            "text": "Every assignment of outcome kind x marking x feedback to 1-2 cases (3 cases stratified/complete) and random assignments to 4-12 cases are applied to the real results object and the printed report is compared with the truth table (verdict, naming of every failing case, accounting of every case exactly once). The same rows are realised end to end with the real binary and a scripted client/server (verifpeer). A further process-level scenario lets a helper server exit (status 0 and non-zero) in the middle of a batch of several hundred cases that are all marked known-failing: the run must fail and the cases that were never handed to a client must be reported.",
             "note": "For could-not-run / no-outcome rows the success verdict is taken at the process level only (report() && err == nil).",
             "assumptions": ["truth table of DESIGN.md C04"]},
     "C02": {"fn": c02, "level": "exploration",
@@ -416,37 +416,37 @@ SPECS = {
             "assumptions": ["net/http and x/net/http2 as observer of the wire"]},
     "C19": {"fn": c19, "level": "exploration",
             "technique": "runtime monitoring: invariant oracle on the real expandRequestData (size == limit+delta, only the padding field differs, else error) over enumerated offsets around every varint boundary; crafted third-party peers exchange messages of exact serialized size limit-1/limit/limit+1 with the real reference server and client",
-            "text": "expandRequestData is run for all five message types, several contents and every offset in windows around zero and around each length-varint growth point; the result must be exactly limit+delta bytes with nothing but request_data changed, or an error - never a panic. Sharpness is observed on the wire: messages of exactly limit-1, limit and limit+1 serialized bytes under every protocol and compression against the real reference server (and reference client for responses).",
+            "text": "expandRequestData is run for all five message types, several contents and every offset in windows around zero and around each length-varint growth point; the result must be exactly limit+delta bytes with nothing but request_data changed, or an error - never a panic. Sharpness is observed on the wire: messages of exactly limit-1, limit and limit+1 serialized bytes under every protocol and compression against the real reference server (and reference client for responses). Limits include the runner's own 200 KiB (server) and 1 MiB (client) values; client streams are also sent after a first message that configures an error response.",
             "note": "connect-go compares the compressed envelope with the limit before decompressing: messages whose compressed form exceeds the limit while the uncompressed size does not are rejected by the library (known finding, third-party).",
             "assumptions": ["proto.Size is the serialized size", "connect-go (no limit configured) as crafted peer"]},
     "C13": {"fn": c13, "level": "exploration",
             "technique": "runtime monitoring: the reference client's real wire-capture + trace + examineWireDetails chain observed on synthetic and real responses; spec-written independent encoders and the reference server's own encoders supply well-formed inputs, one-malformation-at-a-time generators and seeded structure-aware fuzzing supply bad ones",
-            "text": "Thousands of errors (all codes, hostile messages, details, metadata) are rendered as Connect error JSON, Connect end-stream, gRPC-Web trailer blocks and gRPC trailers by an independent spec encoder and by the reference server's own encoder functions, and pushed through the real capture/trace/examine chain: no feedback is allowed. Each malformation class the checks name is injected alone and must produce feedback. 10^4-10^5 mutated/random inputs must not panic.",
+            "text": "Thousands of errors (all codes, hostile messages, details, metadata) are rendered as Connect error JSON, Connect end-stream, gRPC-Web trailer blocks and gRPC trailers by an independent spec encoder and by the reference server's own encoder functions, and pushed through the real capture/trace/examine chain: no feedback is allowed. Each malformation class the checks name is injected alone and must produce feedback. 10^4-10^5 mutated/random inputs must not panic. Each examined response is delivered through a rotating transport variant (single read, 1/3/7-byte reads, end-of-stream message gzip-compressed in the negotiated encoding, trailers-only response that announces trailer names it never sends); the verdict must not depend on it.",
             "note": "Messages with leading/trailing whitespace are excluded (HTTP field parsing trims them; gRPC does not escape 0x20) - a protocol limit; live wire output of the reference server is covered by C01/C02 feedback (any feedback line fails those runs).",
             "assumptions": ["the spec encoder in harness/refserver/c13_wire_test.go follows the Connect and gRPC protocol documents"]},
     "C15": {"fn": c15, "level": "exploration",
             "technique": "runtime monitoring under the race detector: scripted inner net.Conn (every Read/Write result logged) around the real TracingHTTP2Conn; generated multi-stream HTTP/2 exchanges re-interleaved and re-partitioned, compared with an independent per-stream trace model; seeded structure-aware mutation and ordering faults for the no-crash/transparency clause",
-            "text": "Well-formed exchanges (1-6 concurrent streams, HEADERS/CONTINUATION, DATA cutting envelopes anywhere, request/response trailers, RST_STREAM from either side, REFUSED_STREAM+retry, GOAWAY, shared HPACK state) are fed through the real connection tracer on client and server side under 4 schedules and random Read/Write partitions; each named stream must yield exactly one trace equal to the model (request line, own headers, messages in order, status, trailers, end/reset). 10^4-10^6 mutated, random and mis-ordered streams must never panic and every Read/Write must return exactly what the inner conn did.",
+            "text": "Well-formed exchanges (1-6 concurrent streams, HEADERS/CONTINUATION, DATA cutting envelopes anywhere, request/response trailers, RST_STREAM from either side, REFUSED_STREAM+retry, GOAWAY, shared HPACK state) are fed through the real connection tracer on client and server side under 4 schedules and random Read/Write partitions; each named stream must yield exactly one trace equal to the model (request line, own headers, messages in order, status, trailers, end/reset). 10^4-10^6 mutated, random and mis-ordered streams must never panic and every Read/Write must return exactly what the inner conn did. The last bytes of a connection are also delivered together with io.EOF, and a retry-timer part drives the 3 s hold-back of refused streams with real, generously spaced delays (double refusal chain, retry followed by silence, refusal never retried); schedules stretched by the machine are inconclusive.",
             "note": "Real grpc-go traffic through the tracer is exercised by C01's --trace runs on race-built binaries; a stream cut exactly after an envelope prefix may or may not report a zero-length partial event.",
             "assumptions": ["x/net/http2 Framer and hpack encoder generate well-formed frames"]},
     "C11": {"fn": c11, "level": "fault_enumeration",
             "technique": "runtime monitoring under the race detector: fault enumeration over the real runTestCasesForServer with a scripted server process (every byte-offset truncation of its response, write/close errors, exit after k sends, stall) and a scripted client runner; oracle over results.outcomes at quiescence",
-            "text": "The real runTestCasesForServer is run against scripted processStarter/process/clientRunner objects; server faults are enumerated over every position (each byte offset of the response, each k of n sends, each stdin offset sampled) and combined with client faults and answer kinds delivered before, during and after the server's death; the oracle checks one outcome per case, verdict preservation for answered cases (token-tagged), setup errors for the rest, abort on every started process, stderr attribution and bounded termination.",
+            "text": "The real runTestCasesForServer is run against scripted processStarter/process/clientRunner objects; server faults are enumerated over every position (each byte offset of the response, each k of n sends, each stdin offset sampled) and combined with client faults and answer kinds delivered before, during and after the server's death; the oracle checks one outcome per case, verdict preservation for answered cases (token-tagged), setup errors for the rest, abort on every started process, stderr attribution and bounded termination. Real OS-process servers that answer the handshake and then ignore SIGTERM (idle, or writing to stderr) must not keep the batch from returning; answered cases keep their verdict.",
             "note": "Checked at quiescence (the call returned and every accepted callback fired - the server-death path returns without waiting for in-flight requests); an empty but well-formed server response is not treated as a fault.",
             "assumptions": ["progress bound 75 s", "the scripted client runner fires each accepted callback exactly once, as C10 establishes for the real one"]},
     "C10": {"fn": c10, "level": "fault_enumeration",
             "technique": "runtime monitoring under the race detector: offline exactly-once checker over recorded histories (send returns, client reads/writes with unique answer tokens, callbacks) of the real client multiplexer driven by a scripted hostile client with injected delays; every byte-offset cut of answer streams",
-            "text": "The real clientProcessRunner (runClient over runInProcess, real io.Pipe plumbing) is driven by 1-4 concurrent senders and a scripted client that reorders, omits, duplicates, garbles, truncates (after every byte offset), oversizes, stops reading, answers early, exits or stalls; the recorded history is checked for: exactly one callback per accepted request with the token of the client's first complete answer or an error, no callback for refused sends, refusal of late sends, isRunning()==false, termination within the progress bound, no data race.",
+            "text": "The real clientProcessRunner (runClient over runInProcess, real io.Pipe plumbing) is driven by 1-4 concurrent senders and a scripted client that reorders, omits, duplicates, garbles, truncates (after every byte offset), oversizes, stops reading, answers early, exits or stalls; the recorded history is checked for: exactly one callback per accepted request with the token of the client's first complete answer or an error, no callback for refused sends, refusal of late sends, isRunning()==false, termination within the progress bound, no data race. One scripted client kind emits garbage and keeps consuming its stdin, dying only some time after it was aborted, so that senders queued behind an in-progress write are still served.",
             "note": "Interleavings are sampled (delays 0-2 ms inside the stdin reads and before answers, GOMAXPROCS 1/4/16 in thorough); stalled-client histories use the real 20 s timeout and are few.",
             "assumptions": ["progress bound 90 s = 3 x (20 s read timeout + 3 s wait + 5 s abort grace)"]},
     "C16": {"fn": c16, "level": "exploration",
             "technique": "runtime monitoring under the race detector: porcupine linearizability checking of recorded Init/Complete/Await/Clear histories (partitioned by test name) against a sequential slot model, exhaustive sequential operation orders with provably-blocked waiters, and an online exactly-once/prefix-closed monitor on builder completion",
-            "text": "Every operation order up to length 5 (thorough 6) over up to 3 names and 2 waiters is executed against the real Tracer with waiters that are provably blocked before the next operation; thousands of concurrent histories with unique completion ids are recorded at the API boundary and checked with porcupine; the real builder / TracingRoundTripper / TracingHandler are driven by racing producer goroutines and the Collector counts completions and inspects the delivered event list.",
+            "text": "Every operation order up to length 5 (thorough 6) over up to 3 names and 2 waiters is executed against the real Tracer with waiters that are provably blocked before the next operation; thousands of concurrent histories with unique completion ids are recorded at the API boundary and checked with porcupine; the real builder / TracingRoundTripper / TracingHandler are driven by racing producer goroutines and the Collector counts completions and inspects the delivered event list. Round trips include bodies closed by a second goroutine while the first still reads, and calls whose response streams carry 1 to 70000 messages (around 4096 and 8192 densely).",
             "note": "Waiters orphaned by Clear/Init while blocked are only required not to outlive their context and not to see a foreign trace; porcupine Unknown is inconclusive.",
             "assumptions": ["porcupine v1.3.0 is a correct linearizability checker", "time.Since on one process is a monotonic clock"]},
     "C20": {"fn": c20, "level": "exploration",
             "technique": "runtime monitoring: pool-protocol histories (connect-go's reset/close/reuse discipline) with injected corrupt and truncated streams on the real compressor/decompressor instances; independent use of each named algorithm as oracle; wire exchange with the real reference peers",
-            "text": "For each of the six encodings one pooled compressor and decompressor instance is driven through every history of length 4 over {valid, bit-flip, cut, garbage, empty, independent-encoder} (longer random ones in thorough), plus every single-bit flip and cut of short streams followed by a valid decode; every valid decode must be exact. Compressor output must be decodable by an independent implementation of the algorithm the name denotes - for the enum, the registered constructors, tracer.GetDecompressor (any letter case), the raw-payload encoder, and the real reference server on the wire.",
+            "text": "For each of the six encodings one pooled compressor and decompressor instance is driven through every history of length 4 over {valid, bit-flip, cut, garbage, empty, independent-encoder} (longer random ones in thorough), plus every single-bit flip and cut of short streams followed by a valid decode; every valid decode must be exact. Compressor output must be decodable by an independent implementation of the algorithm the name denotes - for the enum, the registered constructors, tracer.GetDecompressor (any letter case), the raw-payload encoder, and the real reference server on the wire. Compressor instances are additionally driven through histories with abandoned messages (Reset without Close), failing sinks and repeated Resets, and decompressors obtained from the wire tracer are used interleaved and concurrently (race detector) to show that every caller owns its instance.",
             "note": "Corruption detection is not claimed (brotli/identity have no integrity check) - only that later valid input decodes correctly and nothing crashes.",
             "assumptions": ["stdlib gzip/zlib, andybalholm/brotli, klauspost/zstd and golang/snappy used directly are the meaning of the encoding names"]},
     "C18": {"fn": c18, "level": "exploration",
@@ -461,17 +461,17 @@ SPECS = {
             "assumptions": ["error text names a discrepancy when it contains the lower-cased header name, the 1-based position, or the class keyword"]},
     "C14": {"fn": c14, "level": "fault_enumeration",
             "technique": "runtime monitoring under the race detector: scripted reader/writer partitions and every truncation point through the real tracingReader / TracingHandler with a recording Collector; oracle = envelope event model + differential run without tracing",
-            "text": "Generated envelope sequences (all flag values, zero lengths, end-stream compressed or not in each of the six encodings, Connect/gRPC/gRPC-Web/non-stream content types) are pushed through the real tracing reader and response writer under seven partition plans and every cut/fail offset; the delivered Trace.Events are compared with an independent event model and the application-visible bytes, (n, err) results, status, headers and trailers with an untraced run.",
+            "text": "Generated envelope sequences (all flag values, zero lengths, end-stream compressed or not in each of the six encodings, Connect/gRPC/gRPC-Web/non-stream content types) are pushed through the real tracing reader and response writer under seven partition plans and every cut/fail offset; the delivered Trace.Events are compared with an independent event model and the application-visible bytes, (n, err) results, status, headers and trailers with an untraced run. A close-race part reads a traced body to its end in one goroutine while another closes it: exactly one body-end event and one completion callback.",
             "note": "A cut exactly after a complete prefix is unconstrained (statement says part-way); an empty end-stream yields no content event; independent decompression uses the algorithm libraries directly.",
             "assumptions": ["envelope event model in harness/tracer/c14_body_test.go"]},
     "C09": {"fn": c09, "level": "fault_enumeration",
             "technique": "runtime monitoring under the race detector: scripted hostile reader (partition plans, every truncation offset, oversize prefixes, stall points) feeding the real ReadDelimitedMessage / StreamDecoders; oracle = framing model",
-            "text": "For each sampled message sequence every truncation offset of the byte stream is injected under seven partition plans (with data+EOF and (0,nil) reads), through the runner's ReadDelimitedMessage and both StreamDecoder variants; oversize prefixes must be rejected with <1MB allocated and only the prefix consumed; stall points must yield a timeout no earlier than configured that reports the exact progress. Fault enumeration is exhaustive over offsets per sequence; sequences are sampled.",
+            "text": "For each sampled message sequence every truncation offset of the byte stream is injected under seven partition plans (with data+EOF and (0,nil) reads), through the runner's ReadDelimitedMessage and both StreamDecoder variants; oversize prefixes must be rejected with <1MB allocated and only the prefix consumed; stall points must yield a timeout no earlier than configured that reports the exact progress. Fault enumeration is exhaustive over offsets per sequence; sequences are sampled. The writer side is covered by encoding messages of every serialized size 0..1200 and around each power of two up to 2^17 with WriteDelimitedMessage and both stream encoders and parsing the bytes back independently.",
             "note": "protoDecoder has no configurable limit, so the before-allocating clause is checked on ReadDelimitedMessage only; stall upper bound is a watchdog (inconclusive), the lower bound and the progress text are verdicts.",
             "assumptions": ["time.After cannot fire early"]},
     "C12": {"fn": c12, "level": "exploration",
             "technique": "runtime monitoring: the real referenceServerChecks middleware and real reference servers (HTTP/1.1, h2c, TLS, mTLS) observed under the full expected x actual matrix and a timeout-grammar model (regular expression + big-integer conversion)",
-            "text": "Every realisable actual request shape is sent against every expected tuple (466k handler calls, exhaustive) and the feedback lines are compared with the set of differing aspects; timeout strings are enumerated exhaustively at the length/unit boundaries and sampled beyond, compared with a grammar + exact-conversion model; wire runs repeat the aspect check through real listeners with a plain HTTP client.",
+            "text": "Every realisable actual request shape is sent against every expected tuple (466k handler calls, exhaustive) and the feedback lines are compared with the set of differing aspects; timeout strings are enumerated exhaustively at the length/unit boundaries and sampled beyond, compared with a grammar + exact-conversion model; wire runs repeat the aspect check through real listeners with a plain HTTP client. The timeout really echoed by createRequestInfo is compared (not only the context value), and simultaneous repeated requests for one test case (2-8 goroutines behind a barrier, race detector on) must be numbered #2..#k exactly once each.",
             "note": "Feedback lines are classified by the aspect keyword they contain; trusts net/http for HTTP/1.1/h2c/TLS transport.",
             "assumptions": ["feedback lines are attributed to aspects by keyword (http version, http method, protocol, codec, compression, tls/plain-text, client cert)"]},
     "C07": {"fn": c07, "level": "exploration",
